@@ -1306,11 +1306,11 @@ def i_convert(m, alt, fr, ins, work):
                 x = m.bv(x, sb)
             res = lift1(x, cv)
         elif sc == "int" and dc == "float":
-            res = lift1(x, lambda a: float(a) if is_int_conc(a) else _unsup("symbolic int->float"))
+            res = lift1(x, lambda a: _f32(float(a), dt) if is_int_conc(a) else _unsup("symbolic int->float"))
         elif sc == "float" and dc == "int":
             res = lift1(x, lambda a: m.wrap(int(a), dt["bits"], dt["signed"]))
         elif sc == "float" and dc == "float":
-            res = x
+            res = lift1(x, lambda a: _f32(a, dt) if isinstance(a, float) else a)
         elif sc == "string" and dc == "string":
             res = x
         elif sc == "int" and dc == "string":
@@ -1322,6 +1322,8 @@ def i_convert(m, alt, fr, ins, work):
         et = m.T(dt["elem"])
 
         def s2b(s):
+            if type(s) is Opaque:
+                return s
             if type(s) is not str:
                 raise Unsupported("convert %r to slice" % (s,))
             data = tuple(s.encode("utf-8")) if et["bits"] == 8 else tuple(ord(c) for c in s)
@@ -1332,6 +1334,8 @@ def i_convert(m, alt, fr, ins, work):
         et = m.T(st["elem"])
 
         def b2s(s):
+            if type(s) is Opaque:
+                return s
             if s.obj is None:
                 return ""
             if type(s.len) is not int:
@@ -1356,6 +1360,16 @@ def i_convert(m, alt, fr, ins, work):
 
 def _unsup(msg):
     raise Unsupported(msg)
+
+
+def _f32(a, dt):
+    if dt.get("basic") == "float32":
+        import struct
+        try:
+            return struct.unpack("f", struct.pack("f", a))[0]
+        except OverflowError:
+            return float("inf") if a > 0 else float("-inf")
+    return a
 
 
 def type_matches(m, v, at):
